@@ -3,17 +3,17 @@ VARIANT = "san"
 RULE = "see stats"
 TIMEOUT = {"quick": 900, "thorough": 3 * 3600, "search": 1800}
 PARTIAL = [
-    "universal optimality of solve() (ssp_optimal_full_statement) is not proved; instead cert_optimal (proved, any size) "
-    "+ the verified checker checkCert accepting potentials computed by the driver on every explored instance "
-    "(ssp_optimal_partial), plus brute-force optimum on the real output for <=5 sources x <=4 sinks, demands <=4",
-    "non-negativity of every entry of the solver's plan is not proved for all inputs (needs the lazy priority-queue "
-    "invariant and libstdc++ heap correctness); checked per instance by checkCert (primal feasibility) and by the direct oracle",
-    "termination / absence of assertion failures (ssp_terminates_full_statement) is not proved: the model is fuelled "
-    "(updateTree: n*2^n+1 rounds, argued bound; chain walks: nbSinks+1; sendSource: demand, sufficient by ssp_feasible_partial's "
-    "0 < sent <= remaining) and reports exhaustion as an error; every explored instance answers `status ok` and agrees with the C++",
-    "proved for all inputs whenever the model returns a plan (ssp_feasible_partial): every source fully allocated, no sink over capacity",
-    "float costs: theorems speak about the stored fixed-point integer costs (costsFromIntegers is executed with IEEE doubles in the "
-    "model and compared entry by entry); optimality in the real-valued costs holds up to the rounding bound checked by the oracle",
+    "all clauses of C13 are proved for ALL inputs of any size on the model (ssp_optimal: solve() returns a plan, every source fully "
+    "allocated, no sink over capacity, no negative entry, minimum total cost; ssp_terminates; ssp_assignment) under the precondition "
+    "WellFormed = check() passes, total demand <= total capacity, and 3*|cost| < INT_MAX for every stored fixed-point cost. "
+    "The cost bound is necessary (theorem ssp_cost_bound_needed: beyond it the INT_MAX sentinel of bestSink is passed and the model "
+    "returns a suboptimal plan; in the C++ such sums overflow int); the driver evaluates it on every explored instance (`bound ok`)",
+    "float costs: costsFromIntegers is executed with IEEE doubles in the model and compared entry by entry; that its output always "
+    "satisfies the cost bound (|cost| <= INT_MAX/(4*nbSinks) + 1/2) is NOT proved (Lean Float is opaque) but checked per instance "
+    "(`bound ok`); the theorems speak about the stored fixed-point integer costs, optimality in the real-valued costs holds up to the "
+    "rounding bound checked by the direct oracle",
+    "what remains per-instance rather than universal: the tie between model and C++ (correspondence stream), C++ int/long long "
+    "overflow freedom (UBSan on the explored domain; the theorems are over unbounded Int)",
 ]
 ASSUMPTIONS = [
     "C++ long long / int arithmetic modelled as unbounded Int; INT_MAX sentinel kept literally; generators keep |cost| <= INT_MAX/(8*sinks) "
@@ -25,13 +25,19 @@ ASSUMPTIONS = [
     "large demands are explored as small instances scaled by a common factor up to 2^36 (solve() is pseudo-polynomial: "
     "rounds ~ demand / smallest allocation on the chain)",
 ]
-LEVEL_TEXT = ("Lean 4 theorems over an executable model of TransportationProblem / TransportationSuccessiveShortestPath: "
-              "weak-duality certificate soundness (cert_optimal, any size), toAssignment = first argmax, increaseCapacity covers the demand, "
-              "flow conservation of sendSource (every source fully allocated, no sink over capacity whenever the model returns a plan); "
-              "the model is tied to the C++ entry by entry (allocations, scaled costs, capacities, assignment) on exhaustive tiny grids and "
-              "random instances up to 16 sinks x 300 sources and magnitudes to 2^40, and answers `cert ok` on each; the direct oracle "
-              "checks feasibility, argmax and the brute-force optimum on the real output")
+LEVEL_TEXT = ("Lean 4 theorems, all inputs of any size, over an executable model of TransportationProblem / "
+              "TransportationSuccessiveShortestPath (exact libstdc++ heap model): ssp_optimal — on every well-formed problem "
+              "(check() ok, demand <= capacity, 3*|cost| < INT_MAX) solve() returns a plan (no failed assert, no top() of an empty queue, "
+              "no index out of range, acyclic sinkParent_, all fuels sufficient), the plan is feasible (fully allocated, no sink over "
+              "capacity, no negative entry) and of minimum cost (successive-shortest-path invariant: lazy-queue invariant, heap "
+              "correctness, dual potentials from sendingCost_ with non-negative reduced costs, tight acyclic tree; final potentials "
+              "accepted by the verified checker checkCert, optimality by weak duality cert_optimal); ssp_feasible for every returned plan "
+              "without the cost bound; toAssignment = first argmax on the solver's plan; increaseCapacity covers the demand. "
+              "The model is tied to the C++ entry by entry (allocations, scaled costs, capacities, assignment) on exhaustive tiny grids and "
+              "random instances up to 16 sinks x 300 sources and magnitudes to 2^40, answers `cert ok` and `bound ok` on each; the direct "
+              "oracle checks feasibility, argmax and the brute-force optimum on the real output")
 LEVEL_NOTE = ("Trusted: Lean kernel (axioms propext/Classical.choice/Quot.sound only), the hand-written model's tie to the code "
-              "(differential, bounded by the generator), unbounded Int for C++ integers, libstdc++ heap algorithms as transcribed. "
-              "Universal optimality, non-negativity and termination are per-instance (certificate / correspondence), see partial_clauses.")
-TECHNIQUE = "Lean 4 proofs (weak duality; loop invariants of sendSource) + verified certificate checker run per instance + model/implementation correspondence stream + brute-force oracle"
+              "(differential, bounded by the generator), unbounded Int for C++ integers, libstdc++ heap algorithms as transcribed "
+              "(their heap/permutation properties are proved). The fuel of updateTree was re-parameterised to the proved bound "
+              "nbSinks*2^31+1 (outputs unchanged). Float cost scaling satisfying the cost bound is per-instance, see partial_clauses.")
+TECHNIQUE = "Lean 4 proofs (successive-shortest-path invariant: heaps, lazy queues, dual potentials, label-correcting tree, weak duality) + verified certificate checker and cost-bound check run per instance + model/implementation correspondence stream + brute-force oracle"
